@@ -7,15 +7,17 @@ func init() {
 	register(&Check{
 		ID: "C10", Level: "model_checking", Engine: "E1-ICB", DesignRef: "DESIGN.md §4 C10",
 		Technique: "stateless model checking of the real Store under a controlled scheduler (iterative preemption bounding): Close at every scheduling point of concurrent writers/readers/Wait/loading Gets; deadlock = no enabled thread; leak = store-spawned thread not finished at the end",
-		LevelText: "every schedule within the preemption bound in which Close races 2-3 clients (writers outnumbering a queue of capacity 1, Wait callers, readers/Range/Len, loading Gets, a second Close) on the real store; the scheduler reports any state in which a client call can never return, an epilogue after Close checks Get/Set/Delete/Len/Range/loading Get/Wait semantics, and at the end every goroutine the store started must have exited; right level because the failing cases need Close to land while a writer is parked on the full queue or between a Wait's marker send and its wake-up",
-		LevelNote: "trusted: instrumenter + vrt models (context cancellation is a closed-channel flag); bounded: <=4 clients x <=2 calls, preemptions <=2 (thorough 3); the hybrid store (demotion workers) is covered by driver D5; the public HybridCache.Close wrapper is checked by the root-package scenario C10/hybrid-close-api",
+		LevelText: "every schedule within the preemption bound in which Close races 2-3 clients (writers outnumbering a queue of capacity 1, Wait callers, readers/Range/Len/EstimatedSize/Stats, SaveCache, loading Gets, hybrid lookups and deletes with a demotion queued, an eviction or an expiry pending, a second Close) on the real store; the scheduler reports any state in which a client call can never return, an epilogue after Close checks Get/Set/Delete/Len/Range/loading Get/Wait semantics, and at the end every goroutine the store started must have exited; right level because the failing cases need Close to land while a writer is parked on the full queue or between a Wait's marker send and its wake-up",
+		LevelNote: "trusted: instrumenter + vrt models (context cancellation is a closed-channel flag); bounded: <=4 clients x <=2 calls, preemptions <=2 (thorough 3); the hybrid store (demotion workers) is covered by drivers D5, D5b, D10, D10b; calls issued through the exported wrappers after Close (all cache kinds) are checked by the root-package scenario C10/api-wiring",
 		Rule:      "stateless DFS with iterative preemption bound; outcome = per-call results + size of the final map",
 		Assume:    []string{"sequentially consistent atomics", "a thread is leaked iff it was spawned (transitively) by NewStore and is not finished when nothing else can run"},
 		Quick: []Scenario{
 			mk("D1-writers-full-queue", 8, "2", 60), mk("D2-wait-vs-close", 4, "2", 60), mk("D2b-close-then-wait", 4, "2", 60), mk("D3-readers", 8, "2", 60), mk("D4-loading", 6, "2", 60), mk("D5-hybrid", 6, "2", 60), mk("D6-close-close", 6, "2", 60), mk("D7-close-vs-eviction", 6, "2", 60), mk("D8-close-vs-expiry", 6, "2", 60),
+			mk("D9-close-vs-save", 6, "2", 60), mk("D9b-close-vs-views", 6, "2", 60), mk("D10-hybrid-lookup-delete", 6, "2", 60), mk("D10b-hybrid-loading", 6, "2", 60),
 		},
 		Thorough: []Scenario{
 			mk("D1-writers-full-queue", 16, "3", 900), mk("D1b-three-writers", 16, "2", 900), mk("D2-wait-vs-close", 16, "3", 900), mk("D2b-close-then-wait", 16, "3", 900), mk("D3-readers", 16, "3", 900), mk("D4-loading", 16, "3", 900), mk("D5-hybrid", 16, "3", 900), mk("D5b-hybrid-2workers", 16, "2", 900), mk("D6-close-close", 16, "3", 900), mk("D7-close-vs-eviction", 16, "3", 900), mk("D8-close-vs-expiry", 16, "3", 900),
+			mk("D9-close-vs-save", 16, "3", 900), mk("D9b-close-vs-views", 16, "3", 900), mk("D10-hybrid-lookup-delete", 16, "3", 900), mk("D10b-hybrid-loading", 16, "3", 900),
 		},
 	})
 }
